@@ -29,10 +29,21 @@ theorem ek_more (k : Nat) (acc : Bytes) : EK (readCharS.more k acc) := by
   | zero => unfold readCharS.more; ek
   | succ k ih => unfold readCharS.more; ek; all_goals first | exact ek_termRead | apply ih
 
+theorem ek_readKey_more (k : Nat) : EK (readKey.more k) := by
+  induction k with
+  | zero => unfold readKey.more; ek
+  | succ k ih => unfold readKey.more; ek; all_goals first | exact ek_termRead | exact ih
+
+/-- `led_readkey()` keeps the editor record, like `termRead` -/
+theorem ek_readKey : EK readKey := by
+  unfold readKey
+  ek
+  all_goals first | exact ek_termRead | apply ek_readKey_more
+
 theorem ek_readCharS (c : Int) (kmap : Nat) : EK (readCharS c kmap) := by
   unfold readCharS
   ek
-  all_goals first | exact ek_termRead | apply ek_more
+  all_goals first | exact ek_termRead | exact ek_readKey | apply ek_more
 
 theorem ek_ledLine_go (post : Bytes) (aiMax : Nat) (im pe : Bool) (setKmap : Option Nat → M Unit)
     (getKmap : M Nat) (redraw : Bytes → Bytes → Bytes → M Unit)
@@ -44,7 +55,7 @@ theorem ek_ledLine_go (post : Bytes) (aiMax : Nat) (im pe : Bool) (setKmap : Opt
   | succ f ih =>
     unfold ledLine.go
     ek
-    all_goals first | apply ih | apply h1 | apply h3 | exact ek_termRead | apply ek_readCharS | exact h2
+    all_goals first | apply ih | apply h1 | apply h3 | exact ek_termRead | exact ek_readKey | apply ek_readCharS | exact h2
 
 theorem ek_ledLine (pref post ai0 : Bytes) (aiMax : Nat) (im ex : Bool) : EK (ledLine pref post ai0 aiMax im ex) := by
   unfold ledLine
